@@ -82,6 +82,55 @@ def validSignedData (o : Oracle) (proposer : Bytes) (sd : SignedData) : Bool :=
 def p2pAdmit (o : Oracle) (proposer : Bytes) (sh : SignedHeader) : Bool :=
   decide (sh.header.proposerAddress = proposer) && validateBasicWire o sh
 
+/-! ## the P2P library entry (go-header): what a header received over gossip / an exchange session goes through
+before it enters the P2P header store of a full or header-only (light) node -/
+
+/-- `time.Unix(0, int64(t))`: the `uint64` timestamp read as a signed number of nanoseconds -/
+def int64Of (t : Nat) : Int := if t < 9223372036854775808 then (t : Int) else (t : Int) - 18446744073709551616
+
+/-- go-header rejects headers more than 10 s ahead of the wall clock. The clock is not modelled: timestamps up
+to the run's wall clock are "not from the future", timestamps from 2100-01-01 on are; the streams never produce
+timestamps in between. -/
+def clockHorizon : Int := 4102444800000000000
+
+/-- go-header's `header.Verify(trusted, untrusted)`: the general checks (same chain id, height above the trusted
+one, time not before the trusted one and not from the future), then `SignedHeader.Verify`: same proposer address
+and, for adjacent heights, the hash link -/
+def libVerify (tr un : SignedHeader) : Bool :=
+  decide (un.header.chainId = tr.header.chainId) && decide (tr.header.height < un.header.height) &&
+  !decide (int64Of un.header.time < int64Of tr.header.time) && !decide (clockHorizon < int64Of un.header.time) &&
+  decide (un.header.proposerAddress = tr.header.proposerAddress) &&
+  (!decide (tr.header.height + 1 = un.header.height) || decide (tr.header.hash = un.header.lastHeaderHash))
+
+inductive LibVerdict | accepted | rejDecode | rejValidate | rejVerify
+  deriving Repr, DecidableEq, Inhabited
+
+/-- `hdr.Validate()` as go-header resolves it since /repo 35dfc53: `SignedHeader.Validate = ValidateBasic`
+(proposer address, signer key bound to that address, signature) -/
+def libValidate (o : Oracle) (sh : SignedHeader) : Bool := validateBasicWire o sh
+
+/-- `hdr.Validate()` before /repo 35dfc53: the method promoted from the embedded unsigned `Header`
+(`Header.ValidateBasic`: a proposer address is present) -/
+def libValidateOld (sh : SignedHeader) : Bool := sh.header.proposerAddress ≠ []
+
+/-- subscriber / session: `New()`, `UnmarshalBinary`, `Validate()`; then `Verify` against the trusted header when
+there is one (none: the first header of a node that trusts a configured hash) -/
+def p2pLibAdmitWith (validate : SignedHeader → Bool) (o : Oracle) (trusted : Option SignedHeader) (bs : Bytes) :
+    LibVerdict :=
+  match headerStage o bs with
+  | .ok sh =>
+    if !validate sh then .rejValidate
+    else match trusted with
+      | none => .accepted
+      | some tr => if libVerify tr sh then .accepted else .rejVerify
+  | _ => .rejDecode
+
+def p2pLibAdmit (o : Oracle) (trusted : Option SignedHeader) (bs : Bytes) : LibVerdict :=
+  p2pLibAdmitWith (libValidate o) o trusted bs
+
+def p2pLibAdmitOld (o : Oracle) (trusted : Option SignedHeader) (bs : Bytes) : LibVerdict :=
+  p2pLibAdmitWith libValidateOld o trusted bs
+
 /-- `handlePotentialData` -/
 def classifyData (o : Oracle) (proposer : Bytes) (bs : Bytes) : BlobClass :=
   match SignedData.decode (fun _ => o.keyOk) bs with
